@@ -15,6 +15,14 @@ V = Path(__file__).resolve().parent.parent
 rnd = sys.argv[1]
 props = {json.loads(l)["id"]: json.loads(l) for l in (V / "properties.jsonl").read_text().splitlines() if l.strip()}
 ANGLE = {
+    "7": ("ALL of the families below have been used, including interplays of two features, operator spellings, rules sharing modes, "
+          "objects modified after hand-over, dtype / integer-width effects and tidy-up methods: look for something else that is "
+          "still a plausible maintainer slip, for instance a change in ONE module that only shows through ANOTHER module's use of "
+          "it, an unusual but valid argument type (numpy integers, range objects, tuples where lists are usual, generators), a "
+          "dependence on the order in which keyword arguments / dict entries / heralds were given, sizes at the upper end (ten or "
+          "more modes, five or more photons, three or four qubits), numeric extremes (magnitudes near 1e-8 or 1e8), an exception "
+          "that is now swallowed so that the call continues with partial state, a condition that is checked on the wrong copy of "
+          "an object, a copy that became too shallow or too deep"),
     "6": ("the obvious families — caches and stale state across calls, shared default objects, aliasing of caller-owned data, "
           "boundary values, falsy zeros, tolerance-based comparisons, identity-vs-equality, argument forms, retained results, global "
           "settings — have all been used: look for something else that is still a plausible maintainer slip, for instance an "
